@@ -204,6 +204,7 @@ def rule_d(ctx):
     from . import c02, c12
     c02.rule_a(ctx)
     c12.rule_a(ctx)
+    c12.rule_b(ctx)
 
 RULES = [
     ("C16.d", "messages sent before init are enqueued (send completes only when enqueued; slot hand-over discipline)", rule_d),
